@@ -44,6 +44,23 @@ CHECKS = {
             "not panic or exceed 65535, and send(L) is TooLarge exactly for L > max, for every L in 0..=max+3.",
             SIM_NOTE + " Only the sender-side API is judged for peer limits below quinn's own overhead.",
             "exhaustive enumeration of a bounded scenario grid executed on the real stack under a deterministic simulated environment"),
+    "C04": ("simx", "exploration", "DESIGN.md §6-C04",
+            "A raw peer (both roles) ends the session in every style: CLOSE_WEBTRANSPORT_SESSION capsule with 7 boundary 32-bit codes x 7 "
+            "reasons of 0..1024 bytes (ASCII and multi-byte), the capsule after GREASE / unknown capsule / unknown frame, clean FIN, "
+            "RESET_STREAM, FIN inside a frame, capsule value of 0..3 bytes, 1025-byte reason, invalid UTF-8 reason, QUIC application close "
+            "with 8 boundary 62-bit codes x reasons incl. non-UTF-8; in three session phases (idle; accept_uni/accept_bi/receive_datagram "
+            "pending; additionally open streams in both directions). Every pending call and two rounds of later calls must report "
+            "ApplicationClosed with exactly the peer's code and reason bytes (0, empty for FIN), abrupt / malformed terminations must be a local "
+            "HTTP/3 error and never ApplicationClosed or Ok; the CONNECTION_CLOSE code the peer sees is checked too.",
+            SIM_NOTE, "exhaustive enumeration of a bounded scenario grid executed on the real stack under a deterministic simulated environment"),
+    "C06": ("simx", "exploration", "DESIGN.md §6-C06",
+            "wt<->wt and raw<->wt (raw peer as writer and as reader, both roles) x six data directions x {reset(c), stop(c), finish, finish "
+            "with all acknowledgements withheld and later released} x phase {before any byte, after k bytes written and read, written and "
+            "unread, after finish} x 10 codes across every varint length up to 2^62-1. Oracle: the reader sees a prefix of the written bytes "
+            "then Reset(c); after stop(c) stopped(), write, write_all and finish all report Stopped(c); the raw peer sees RESET_STREAM / "
+            "STOP_SENDING with exactly c; finish() stays pending while acknowledgements are withheld, completes Ok after release, and the "
+            "reader then gets all bytes and end-of-stream.",
+            SIM_NOTE, "exhaustive enumeration of a bounded scenario grid executed on the real stack under a deterministic simulated environment"),
     "C16": ("simx", "exploration", "DESIGN.md §6-C16",
             "A raw quinn peer records every byte the endpoint emits (both roles) over a grid of requests, decisions, header singletons, "
             "stream sets, datagram lengths and CONNECT stream ids (session ids crossing varint lengths) and the independent reference codec "
